@@ -49,6 +49,8 @@ def bv(v):
         if not (_MIN <= v <= _MAX):
             raise Unsupported("constant does not fit 80 bits: %d" % v)
         return z3.BitVecVal(v, W)
+    if getattr(v, "pysym_np", False):      # modelled numpy integer scalar (npmodel.NpInt): its value
+        return bv(v.pysym_int())
     if hasattr(v, "__index__") and not isinstance(v, float):  # numpy integers
         return bv(int(v))
     raise Unsupported("cannot lift %r to a symbolic int" % type(v))
@@ -59,6 +61,8 @@ def is_sym(v):
 
 
 def _liftable(o):
+    if getattr(o, "pysym_np", False):
+        return False    # int (op) numpy scalar is the numpy scalar's reflected operation (fixed-width semantics), as in CPython
     return isinstance(o, (int, SymInt, SymBool)) or (hasattr(o, "__index__") and not isinstance(o, float))
 
 
